@@ -462,6 +462,97 @@ fn net2_eval(inp: EvalIn) -> EvalOut {
     r
 }
 
+/// pallas-network2: the real `TcpInterface` event loop (hook H6 attaches the
+/// in-memory bearer): its `recv` future reads one segment per poll round and is
+/// re-queued by `on_recv` together with the partial-chunk buffer, which lives
+/// inside the interface. Left-over bytes are therefore observed the way they
+/// are for pallas-network: a complete sentinel message sent after the stream
+/// must come out intact.
+fn net2_iface(inp: EvalIn) -> EvalOut {
+    use futures::StreamExt;
+    use pallas_network2::interface::TcpInterface;
+    use pallas_network2::{InterfaceEvent, PeerId};
+    let total: usize = inp.segs.iter().map(|s| s.len()).sum();
+    let nseg = inp.segs.len();
+    let (a, b) = tokio::io::duplex(pipe_for(total + inp.sentinel.len()));
+    let pid = PeerId { host: "mem".into(), port: 1 };
+    let mut iface = TcpInterface::<AnyMessage>::new();
+    iface.verif_attach(pid, Bearer2::Mem(a));
+    let (rb, mut wb) = Bearer2::Mem(b).into_split();
+    let out = Rc::new(RefCell::new(EvalOut::default()));
+    let mut tasks = Tasks::new();
+    let o = out.clone();
+    let number = inp.number;
+    let k = inp.k;
+    let wire = number | if inp.flip { p2::PROTOCOL_SERVER } else { 0 };
+    let sentinel = inp.sentinel.clone();
+    tasks.spawn("interface", async move {
+        let _keep = rb;
+        loop {
+            match iface.next().await {
+                Some(InterfaceEvent::Recv(_, msgs)) => {
+                    let mut ob = o.borrow_mut();
+                    for m in msgs {
+                        if m.channel() != number {
+                            ob.error = Some(("wrong-channel", format!("message of channel {} on channel {number}", m.channel())));
+                            return;
+                        }
+                        if ob.got.len() < k {
+                            ob.got.push(m.payload());
+                        } else if ob.sentinel.is_none() {
+                            let p = m.payload();
+                            ob.leftover = Some(if p == sentinel { 0 } else { 1 });
+                            ob.sentinel = Some(p);
+                            ob.finished = true;
+                            return;
+                        }
+                    }
+                }
+                Some(InterfaceEvent::Error(_, e)) => {
+                    let mut ob = o.borrow_mut();
+                    ob.in_sentinel = ob.got.len() >= k;
+                    ob.error = Some(("channel-error", format!("interface: {e:?}")));
+                    return;
+                }
+                Some(_) => {}
+                None => return,
+            }
+        }
+    });
+    let o = out.clone();
+    let segs = inp.segs;
+    let sent = inp.sentinel;
+    tasks.spawn("writer", async move {
+        for (i, s) in segs.iter().chain(std::iter::once(&sent)).enumerate() {
+            if let Err(e) = wb.write_segment(wire, i as u32, s).await {
+                let mut ob = o.borrow_mut();
+                if ob.error.is_none() {
+                    ob.error = Some(("channel-error", format!("write_segment: {e}")));
+                }
+                return;
+            }
+        }
+        std::future::pending::<()>().await;
+    });
+    let o = out.clone();
+    let horizon = 200_000 + 64 * nseg + total / 8;
+    let _ = sched::run_until(tasks, horizon, &|| {
+        let ob = o.borrow();
+        ob.finished || ob.error.is_some()
+    });
+    let mut r = out.borrow().clone();
+    if r.leftover == Some(1) && r.error.is_none() {
+        // the sentinel came out damaged: bytes of the stream were still buffered
+        r.leftover = Some(r.sentinel.as_ref().map(|s| s.len().max(1)).unwrap_or(1));
+    }
+    if r.got.len() >= k && r.leftover.is_none() && r.error.is_none() {
+        // every stream message arrived but the complete message sent afterwards never did
+        r.leftover = Some(1);
+        r.finished = true;
+    }
+    r
+}
+
 /// pallas-network2: `AnyMessage::from_payload` driven the way `read_full_msgs`
 /// drives it (append one segment to the channel's partial buffer, drain all
 /// complete messages).
@@ -538,8 +629,9 @@ fn net1_proto<M: Fragment + 'static>(protocol: &'static str, number: u16) -> Pro
     Proto { stack: NET1, path: "plexer", protocol, number, eval: net1_eval::<M>, reenc: Box::new(reenc1::<M>), counts_distinct: true, small: vec![], big: None, extended: vec![], edges: vec![] }
 }
 
-fn net2_protos(protocol: &'static str, number: u16) -> [Proto; 2] {
+fn net2_protos(protocol: &'static str, number: u16) -> [Proto; 3] {
     [
+        Proto { stack: NET2, path: "interface", protocol, number, eval: net2_iface, reenc: Box::new(move |b| reenc2(number, b)), counts_distinct: false, small: vec![], big: None, extended: vec![], edges: vec![] },
         Proto { stack: NET2, path: "read_full_msgs", protocol, number, eval: net2_eval, reenc: Box::new(move |b| reenc2(number, b)), counts_distinct: true, small: vec![], big: None, extended: vec![], edges: vec![] },
         Proto { stack: NET2, path: "from_payload", protocol, number, eval: net2_direct, reenc: Box::new(move |b| reenc2(number, b)), counts_distinct: false, small: vec![], big: None, extended: vec![], edges: vec![] },
     ]
@@ -1346,10 +1438,10 @@ pub fn run(ctx: Ctx) -> ! {
         })
         .collect();
     let rule = format!(
-        "evaluation = one (stream, segmentation) executed on one real receive path (pallas-network: enqueue_chunk -> Muxer -> pipe -> Demuxer -> ChannelBuffer::recv_full_msg::<protocol message type>, then a complete sentinel message; pallas-network2: write_segment -> pipe -> read_full_msgs::<AnyMessage> once per segment, partial_chunks empty at the end; and AnyMessage::from_payload fed the same segments directly). \
+        "evaluation = one (stream, segmentation) executed on one real receive path (pallas-network: enqueue_chunk -> Muxer -> pipe -> Demuxer -> ChannelBuffer::recv_full_msg::<protocol message type>, then a complete sentinel message; pallas-network2: write_segment -> pipe -> read_full_msgs::<AnyMessage> once per segment, partial_chunks empty at the end; AnyMessage::from_payload fed the same segments directly; and write_segment -> pipe -> the real TcpInterface event loop (hook H6; its recv future is re-queued by on_recv with the partial-chunk buffer), Recv events collected, then a complete sentinel message that must come out intact). \
          Streams per protocol: (a) every sequence of 1..3 messages over the protocol's reduced alphabet (first {QUICK_ALPHA} entries in quick, all 7 in thorough; listed under `alphabets`), (b) streams with one crafted message carrying a {BIG_BODY}-byte body where the protocol has a body field ([B], [s,B,s'] in quick; also [s,B], [B,s'], [B,B] in thorough), (b') where the protocol has a body field, six streams whose large message can end exactly where a full-size segment ends: [B] with |B| = 65535, = 131070 and = 197605 bytes, [s,B] with |s|+|B| = those sizes, and [s,B] with |B| = those sizes (body length chosen from the target), run with no cut (= the sender's 65535-byte chunking = uniform 65535), uniform 4096 / 12288 / 40000-byte segments and every single cut within {SINGLE_WINDOW} bytes of a message start/end or 2 of a 65535 multiple; the receiver has to yield every stream message BEFORE the sentinel is enqueued (a receiver that waits for more data is reported as stalled), (c) every other mc-proto message of the protocol that passes C22 and is <= 4096 bytes, as a single-message stream. \
          Segmentations of a stream of n bytes: n <= {} : all 2^(n-1) cut sets; otherwise: no cut, every single cut (n <= {DENSE_N}: every position; longer: every position within {SINGLE_WINDOW} bytes of a message start/end, within 2 of a multiple of 65535, and every {STRIDE}th byte), every pair of cuts (n <= {}: all positions; longer streams: positions within {} bytes of a message boundary / 65535 multiple; not for (c) in quick), the all-1-byte segmentation, uniform k-byte segmentations k in {{2,3,7,255,65535}}, and segmentations with an EMPTY segment (one in the middle of the stream, and, for streams of >= 2 messages, one exactly between the first two messages). Segments longer than 65535 bytes are further cut at 65535-byte steps. Odd job indices run server->client / with the server bit set. \
-         distinct_nontrivial = number of distinct (stack, protocol, stream, cut set) in which at least one cut lies strictly inside a message (counted once for the two pallas-network2 paths; the empty-segment case is not counted).",
+         distinct_nontrivial = number of distinct (stack, protocol, stream, cut set) in which at least one cut lies strictly inside a message (counted once for the three pallas-network2 paths; the empty-segment case is not counted).",
         lim.full_n, lim.pair_n, lim.pair_window
     );
     let cov = cov! {
